@@ -16,6 +16,32 @@
   constructors' section search) are C01's theorems applied to them (Proofs/DynamicImage.lean).
   The earlier statement with those accessors as hypotheses (`TableView` / `SegsView` /
   `d.strtab = …`) is kept as `segment_view_eq_section_view_partial`.
+
+  Fifth wave (second half of this file):
+    proved   `by_name_exact`, `seg_by_name_exact`, `by_name_of_enumeration`, `by_name_meaning`
+               — `get_symbol_by_name`: duplicates in index order, absent names, both layouts;
+             `seg_tags_exact_routes`, `stringtable_by_name` — the string table through the section
+               called `.dynstr` when DT_STRTAB is absent or maps nowhere (third route of
+               `_get_stringtable`); `DynDesc.wf` is split into the parts each theorem uses
+               (`wfBase`, `wfTags`, `wfSyms`, `wfHash`; Spec/DynamicExt.lean);
+             `num_symbols_fallback` (exact model of the no-hash count), `…_exact_iff` (the precise
+               condition `FallbackExact`), `…_counterexample` (DT_STRSZ between DT_SYMTAB and
+               DT_STRTAB: 0 symbols counted where 2 are stored), `seg_num_symbols_fallback`,
+               `seg_symbols_exact_fallback`, `seg_num_symbols_fallback_inexact` (whole file);
+             `stringtable_none`, `tags_without_stringtable`, `symbols_without_stringtable`,
+               `seg_tags_no_strtab` (ELFError / AttributeError), `symbol_table_unmapped`,
+               `seg_symbols_unmapped` (ELFError), `num_symbols_syment_mismatch` (ELFError, fallback
+               path only), `tags_truncated`, `seg_tags_truncated` (ELFParseError after every
+               stored entry).  DT_STRSZ is never read: every theorem here quantifies over all tag
+               lists, with or without it.
+    correspondence only (model == library on generated inputs, no theorem):
+             `get_relocation_tables` and the relocation entries (REL / RELA / RELR / JMPREL);
+             the `DynamicSection` view of a table without DT_NULL (`sec_tags_exact_base` covers
+               every terminated table, with or without a usable DT_STRTAB);
+             symbol names that are not valid UTF-8 (lookup is keyed on decoded text);
+             the GNU-hash count on malformed hash tables; caches across calls (C10's subject);
+             a table without DT_NULL that is followed by further bytes (what is read then is
+               whatever follows — outside the quantifier).
 -/
 import PyElf.Spec.Dynamic
 import PyElf.Model.Dynamic
@@ -23,8 +49,16 @@ import PyElf.Proofs.Dynamic
 import PyElf.Proofs.DynamicGnu
 import PyElf.Proofs.DynamicImage
 import PyElf.Proofs.DynamicSym
+import PyElf.Spec.DynamicExt
+import PyElf.Proofs.DynamicByName
+import PyElf.Proofs.DynamicFallback
+import PyElf.Proofs.DynamicRoutes
+import PyElf.Proofs.DynamicErrors
+import PyElf.Proofs.DynamicTrunc
 import PyElf.Props.TieC09
+import PyElf.Props.TieC09Ext
 import PyElf.Props.TieC09Sh
+import PyElf.Props.C09Examples
 import PyElf.Props.C01
 namespace PyElf.Props.C09
 open PyElf PyElf.Spec PyElf.Spec.Dynamic PyElf.Model PyElf.Model.Dynamic PyElf.Proofs.Dynamic PyElf.Props.TieC09
@@ -561,5 +595,744 @@ example : hashOk exHashD = true := by decide
    the theorem's domain as `…:WF-theorem-domain`).  A kernel-checked `example` is not available:
    `Con.encodeRaw` / `Con.decodeRaw` are compiled by well-founded recursion and do not reduce in the
    kernel, and a `simp`-evaluated instance of `ElfDesc.wf` was not attempted. -/
+
+
+/-! ## Fifth wave: lookup by name, the routes to the string table, the count without a hash table,
+    incomplete dynamic information
+
+  What follows closes the gaps listed in the header of the earlier waves:
+  * `get_symbol_by_name` (`by_name_exact`, `seg_by_name_exact`): every symbol bearing the name, in
+    index order, `None` for an absent name — from either layout.
+  * the string table through every route `_get_stringtable` has (`seg_tags_exact_routes`): section
+    link, DT_STRTAB through the PT_LOADs, and the section called `.dynstr` when DT_STRTAB is absent
+    or maps nowhere (C01's `lookup_exact`, composed); `DynDesc.wf` only covered the first two.
+  * `num_symbols()` without a usable hash table (`num_symbols_fallback`, `…_exact_iff`,
+    `…_counterexample`, `seg_symbols_exact_fallback`).
+  * the exception classes for incomplete information (`tags_without_stringtable`,
+    `seg_tags_no_strtab`, `symbol_table_unmapped`, `num_symbols_syment_mismatch`, `tags_truncated`,
+    `seg_tags_truncated`). -/
+
+theorem syment_fact (c : ElfCfg) : TagIs elfEnv (tbl c) "DT_SYMENT" DT_SYMENT := by
+  unfold tbl
+  by_cases h1 : c.mclass = "EM_MIPS"
+  · rw [h1]; exact syment_mips
+  by_cases h2 : c.mclass = "EM_MIPS_RS3_LE"
+  · rw [h2]; exact syment_mips
+  by_cases h3 : c.mclass = "EM_AARCH64"
+  · rw [h3]; exact syment_aarch64
+  have e1 : dTagTable c.mclass c.solaris = if c.solaris then "ENUM_D_TAG_COMMON+ENUM_D_TAG_SOLARIS" else "ENUM_D_TAG_COMMON" := by
+    unfold dTagTable; split <;> simp_all
+  rw [e1]
+  cases c.solaris
+  · exact syment_common
+  · exact syment_solaris
+
+/-- size of a symbol record of the configuration (16 / 24 bytes) -/
+def symSz (c : ElfCfg) : Nat := (S c).Elf_Sym.sizeof.getD 0
+
+theorem symSz_spec (c : ElfCfg) : (S c).Elf_Sym.sizeof = some (symSz c) ∧ 0 < symSz c := by
+  obtain ⟨sz, h, hp⟩ := sym_size c
+  have h' : (S c).Elf_Sym.sizeof = some sz := h
+  simp [symSz, h', hp]
+
+/-! ### the string table: the third route, and none -/
+
+/-- an object constructed without a string table whose DT_STRTAB is absent or maps nowhere uses
+    whatever `get_section_by_name('.dynstr')` returns (a section object, or `None`) -/
+theorem stringtable_by_name (c : ElfCfg) (data : Bytes) (ifc : FileIfc) (d : Dyn) (tags : List (Int × Nat))
+    (hs : List Val) (V : View c data d tags) (hterm : hasTerminator tags = true) (SV : SegsView ifc hs)
+    (hnone : d.strtab = none) (hno : (firstVal (liveTags tags) DT_STRTAB).bind (mapAddr hs) = none)
+    (r : Option (String × Val)) (hby : ifc.sectionByName (nm ".dynstr") = .ok r) :
+    getStringtable elfEnv (S c) data ifc d = .ok (r.map fun p => .section p.1 p.2) :=
+  getStringtable_byName V (tag_facts c).null hterm SV (tag_facts c).strtab hnone hno hby
+
+/-- the tags and strings of one layout through its `DynamicSegment`, by whichever route the string
+    table is reached (`DynDesc.wfTags`: terminator, strings terminated, `strOk`).  Generalises
+    `seg_tags_exact` (`DynDesc.wf` implies the hypotheses: `wf_base`, `wf_tags`); new is the route
+    through the section called `.dynstr` -/
+theorem seg_tags_exact_routes (d : DynDesc) (full : Bool) (bytes : Bytes)
+    (hc : (d.container full).wf elfEnv = true) (hb : d.wfBase elfEnv = true) (ht : d.wfTags elfEnv full = true)
+    (hl : DynLayout d full bytes) (hsmall : bytes.length < 2 ^ 63) :
+    segObs bytes = .ok (some (specTagObs d)) := by
+  have F := tag_facts d.cfg
+  obtain ⟨f, dy, X⟩ := segBase_of sh_types hc hb hl hsmall
+  simp only [DynDesc.wfTags, Bool.and_eq_true] at ht
+  obtain ⟨⟨hterm, hstrs⟩, hok⟩ := ht
+  obtain ⟨tab, hst, hserve⟩ := strtab_of_route X F.null F.strtab hterm hok
+  have V : View d.cfg f.data dy d.tags := by have := X.view; rwa [X.S] at this
+  have e := tags_exact d.cfg f.data (realIfc elfEnv f) dy d.tags d.strtab tab V hterm
+    (by rwa [X.S] at hst) hserve (stringsOk_tags hstrs)
+  unfold segObs
+  simp only [X.opened, X.seg, bind, Except.bind, pure, Except.pure, tagObs, X.S]
+  have e1 : iterTags elfEnv d.S f.data (realIfc elfEnv f) dy none = _ := e.1
+  have e2 : numTags elfEnv d.S f.data (realIfc elfEnv f) dy = _ := e.2
+  rw [e1, e2]
+  rfl
+
+/-- the tags and strings of the full layout through its `DynamicSection`, from the container part
+    of the well-formedness alone: the section link serves the strings whether or not the table
+    holds a (mapped) DT_STRTAB.  Generalises `sec_tags_exact`. -/
+theorem sec_tags_exact_base (d : DynDesc) (bytes : Bytes)
+    (hc : (d.container true).wf elfEnv = true) (hb : d.wfBase elfEnv = true)
+    (hterm : hasTerminator d.tags = true) (hstrs : stringsOk d = true)
+    (hl : DynLayout d true bytes) (hsmall : bytes.length < 2 ^ 63) :
+    secObs bytes = .ok (some (specTagObs d)) := by
+  obtain ⟨f, dy0, X⟩ := segBase_of sh_types hc hb hl hsmall
+  obtain ⟨dy, tab, Y⟩ := secSide_base sh_types hc hb hl hsmall f X.opened
+  have V : View d.cfg f.data dy d.tags := by have := Y.view; rwa [X.S] at this
+  have e := tags_exact d.cfg f.data (realIfc elfEnv f) dy d.tags d.strtab tab V hterm
+    (by have := Y.strtab; rwa [X.S] at this) Y.serves (stringsOk_tags hstrs)
+  unfold secObs
+  simp only [X.opened, Y.sec, bind, Except.bind, pure, Except.pure, tagObs, X.S]
+  have e1 : iterTags elfEnv d.S f.data (realIfc elfEnv f) dy none = _ := e.1
+  have e2 : numTags elfEnv d.S f.data (realIfc elfEnv f) dy = _ := e.2
+  rw [e1, e2]
+  rfl
+
+/-! ### lookup by name -/
+
+/-- `obs`, segment side (lookup): `get_symbol_by_name(q)` of the image's `DynamicSegment` -/
+def byNameObs (bytes : Bytes) (q : Bytes) : R (Option (R (Option (List (Bytes × Val))))) := do
+  let f ← openElf elfEnv C01.specStructs C01.specMachineClass bytes
+  match ← dynamicSegment elfEnv f with
+  | none => return none
+  | some dy =>
+    let segs := iterSegments elfEnv f.S f.data f.header f.shstr
+    return some (getSymbolByName elfEnv f.S f.data (realIfc elfEnv f) dy segs f.le q)
+
+/-- `get_symbol_by_name` over any object whose enumeration is exact: all enumerated symbols bearing
+    the name in index order, `None` for an absent name (`byNameOf`; `by_name_meaning` below) -/
+theorem by_name_of_enumeration (c : ElfCfg) (data : Bytes) (ifc : FileIfc) (d : Dyn)
+    (iterSegs : R (List (String × Val))) (L : List (Bytes × Val))
+    (hit : iterSymbols elfEnv (S c) data ifc d iterSegs c.le = .ok L)
+    (hget : ∀ i (h : i < L.length), getSymbol elfEnv (S c) data ifc d i = .ok L[i]) (q : Bytes) :
+    getSymbolByName elfEnv (S c) data ifc d iterSegs c.le q = .ok (byNameOf L q) :=
+  getSymbolByName_of hit hget q
+
+/-- what the answer means: absent name → `None`; otherwise exactly the symbols bearing the name
+    (duplicates included, nothing else), in index order -/
+theorem by_name_meaning (L : List (Bytes × Val)) (q : Bytes) :
+    ((∀ x ∈ L, x.1 ≠ q) → byNameOf L q = none) ∧
+    (∀ hit, byNameOf L q = some hit →
+      hit ≠ [] ∧ hit.Sublist L ∧ (∀ x ∈ hit, x.1 = q) ∧ (∀ x ∈ L, x.1 = q → x ∈ hit) ∧
+      hit.length = L.countP (·.1 == q)) :=
+  ⟨byNameOf_absent, fun _ h => byNameOf_present h⟩
+
+/-- the common core: the `DynamicSegment` of a layout, string table reached by any route, DT_SYMTAB
+    designating the symbol table, and a recovered count that is the true count — then the symbols,
+    their count and every lookup by name are the described ones -/
+theorem seg_symbols_core (d : DynDesc) (full : Bool) (bytes : Bytes) (f : ElfFile) (dy : Dyn)
+    (X : SegBase elfEnv d full bytes f dy) (ht : d.wfTags elfEnv full = true) (hs : d.wfSyms elfEnv = true)
+    (hnum : numSymbols elfEnv d.S f.data (realIfc elfEnv f) dy (iterSegments elfEnv d.S f.data f.header f.shstr) d.le
+      = .ok d.syms.length) :
+    symObs bytes = .ok (some (specSymObs d)) ∧ (∃ ss, obsSyms elfEnv d = .ok ss ∧ ss.length = d.syms.length) ∧
+    ∀ q, byNameObs bytes q = .ok (some (obsByName elfEnv d q)) := by
+  have F := tag_facts d.cfg
+  simp only [DynDesc.wfTags, Bool.and_eq_true] at ht
+  obtain ⟨⟨hterm, hstrs⟩, hok⟩ := ht
+  obtain ⟨tab, hst, hserve⟩ := strtab_of_route X F.null F.strtab hterm hok
+  have V : View d.cfg f.data dy d.tags := by have := X.view; rwa [X.S] at this
+  obtain ⟨b, B, hpl⟩ := X.blobs
+  obtain ⟨sb, hsb, hmem⟩ := B.syms
+  obtain ⟨rest, hrest⟩ := hpl _ hmem
+  obtain ⟨a, ha, ho⟩ := ptrOk_some hs
+  obtain ⟨es, Y⟩ := symView_of elfEnv d.cfg f.data d.symOff d.syms sb rest hsb hrest
+  have hobs := obsSyms_eq (d := d) Y
+  rw [X.S] at hst
+  have hit := symbols_exact_partial d.cfg f.data (realIfc elfEnv f) dy d.tags (d.phdrs elfEnv) V hterm X.segs
+    (iterSegments elfEnv d.S f.data f.header f.shstr) a d.symOff ha ho d.syms es Y tab d.strtab
+    hst hserve (stringsOk_syms hstrs) hnum
+  have e1 : iterSymbols elfEnv d.S f.data (realIfc elfEnv f) dy
+      (iterSegments elfEnv d.S f.data f.header f.shstr) d.le = obsSyms elfEnv d := by rw [hobs]; exact hit
+  refine ⟨?_, ⟨_, hobs, by simp⟩, ?_⟩
+  · unfold symObs
+    simp only [X.opened, X.seg, bind, Except.bind, pure, Except.pure, X.S, X.le, specSymObs]
+    rw [e1, hnum]
+  · intro q
+    unfold byNameObs
+    simp only [X.opened, X.seg, bind, Except.bind, pure, Except.pure, X.S, X.le]
+    rw [obsByName_eq hobs q]
+    have hget : ∀ i (h : i < ((List.range d.syms.length).map fun i =>
+          ((strAt d.strtab (getNatD (d.syms.getD i []) "st_name")).getD [], es.getD i .none)).length),
+        getSymbol elfEnv d.S f.data (realIfc elfEnv f) dy i
+          = .ok ((List.range d.syms.length).map fun i =>
+              ((strAt d.strtab (getNatD (d.syms.getD i []) "st_name")).getD [], es.getD i .none))[i] := by
+      intro i hi
+      have h1 : i < d.syms.length := by simpa using hi
+      have h2 : i < es.length := by rw [Y.len]; exact h1
+      have := getSymbol_view V F.null hterm X.segs F.symtab ha ho Y hst hserve i h1 h2
+        (stringsOk_syms hstrs _ (List.getElem_mem h1))
+      rw [show getSymbol elfEnv d.S f.data (realIfc elfEnv f) dy i = _ from this]
+      simp [List.getD, List.getElem?_eq_getElem h1, List.getElem?_eq_getElem h2]
+    have := getSymbolByName_of (le := d.le) (iterSegs := iterSegments elfEnv d.S f.data f.header f.shstr) hit hget q
+    rw [show getSymbolByName elfEnv d.S f.data (realIfc elfEnv f) dy
+      (iterSegments elfEnv d.S f.data f.header f.shstr) d.le q = _ from this]
+
+/-- the recovered count of a layout with a well-formed hash table -/
+theorem seg_count_hash (d : DynDesc) (full : Bool) (bytes : Bytes) (f : ElfFile) (dy : Dyn)
+    (X : SegBase elfEnv d full bytes f dy) (hterm : hasTerminator d.tags = true) (hh : d.wfHash elfEnv = true)
+    (hok : hashOk d = true) :
+    numSymbols elfEnv d.S f.data (realIfc elfEnv f) dy (iterSegments elfEnv d.S f.data f.header f.shstr) d.le
+      = .ok d.syms.length := by
+  have V : View d.cfg f.data dy d.tags := by have := X.view; rwa [X.S] at this
+  obtain ⟨b, B, hpl⟩ := X.blobs
+  simp only [DynDesc.wfHash, Bool.and_eq_true] at hh
+  have hwf := hash_wf_of (env := elfEnv) (d := d) (full := full) (data := f.data) hh.1 hh.2 hok B hpl
+  exact num_symbols_exact d.cfg f.data (realIfc elfEnv f) dy d.tags (d.phdrs elfEnv) V hterm X.segs _ d.syms.length hwf
+
+
+/-- the dynamic symbols, their count and every lookup by name of one layout through its
+    `DynamicSegment`, string table by any route, when a well-formed hash table is present.
+    Generalises `seg_symbols_exact`; `get_symbol_by_name` is new. -/
+theorem seg_by_name_exact (d : DynDesc) (full : Bool) (bytes : Bytes)
+    (hc : (d.container full).wf elfEnv = true) (hb : d.wfBase elfEnv = true) (ht : d.wfTags elfEnv full = true)
+    (hs : d.wfSyms elfEnv = true) (hh : d.wfHash elfEnv = true) (hok : hashOk d = true)
+    (hl : DynLayout d full bytes) (hsmall : bytes.length < 2 ^ 63) :
+    symObs bytes = .ok (some (specSymObs d)) ∧ (∃ ss, obsSyms elfEnv d = .ok ss ∧ ss.length = d.syms.length) ∧
+    ∀ q, byNameObs bytes q = .ok (some (obsByName elfEnv d q)) := by
+  obtain ⟨f, dy, X⟩ := segBase_of sh_types hc hb hl hsmall
+  have hterm : hasTerminator d.tags = true := by
+    simp only [DynDesc.wfTags, Bool.and_eq_true] at ht; exact ht.1.1
+  exact seg_symbols_core d full bytes f dy X ht hs (seg_count_hash d full bytes f dy X hterm hh hok)
+
+/-- `by_name_exact` of the design: for the two layouts of one well-formed description with a
+    well-formed hash table, `get_symbol_by_name(q)` on the `DynamicSegment` of the image without
+    section headers and on that of the image with them give the same answer, namely the described
+    one: every described symbol bearing the name `q` (duplicates included), in index order, each
+    with its name and decoded entry; `None` when no symbol bears it. -/
+theorem by_name_exact (d : DynDesc) (imgF imgS : Bytes) (hwf : d.WF elfEnv = true)
+    (hF : DynLayout d true imgF) (hS : DynLayout d false imgS)
+    (hsF : imgF.length < 2 ^ 63) (hsS : imgS.length < 2 ^ 63) (hok : hashOk d = true) (q : Bytes) :
+    byNameObs imgS q = byNameObs imgF q ∧ byNameObs imgF q = .ok (some (obsByName elfEnv d q)) ∧
+    ∃ ss, obsSyms elfEnv d = .ok ss ∧ ss.length = d.syms.length ∧ obsByName elfEnv d q = .ok (byNameOf ss q) := by
+  unfold DynDesc.WF at hwf
+  simp only [Bool.and_eq_true] at hwf
+  obtain ⟨⟨⟨hdT, hdF⟩, hcT⟩, hcF⟩ := hwf
+  have h1 := seg_by_name_exact d true imgF hcT (wf_base hdT) (wf_tags hdT) (wf_syms hdT) (wf_hash hdT) hok hF hsF
+  have h2 := seg_by_name_exact d false imgS hcF (wf_base hdF) (wf_tags hdF) (wf_syms hdF) (wf_hash hdF) hok hS hsS
+  obtain ⟨ss, hss, hlen⟩ := h1.2.1
+  exact ⟨(h2.2.2 q).trans (h1.2.2 q).symm, h1.2.2 q, ss, hss, hlen, obsByName_eq hss q⟩
+
+/-- the same for the images the assembler produces -/
+theorem by_name_exact_assembled (d : DynDesc) (imgF imgS : Bytes) (hwf : d.WF elfEnv = true)
+    (hF : d.assemble true = some imgF) (hS : d.assemble false = some imgS)
+    (hsF : imgF.length < 2 ^ 63) (hsS : imgS.length < 2 ^ 63) (hok : hashOk d = true) (q : Bytes) :
+    byNameObs imgS q = byNameObs imgF q ∧ byNameObs imgF q = .ok (some (obsByName elfEnv d q)) := by
+  have hwf' := hwf
+  unfold DynDesc.WF at hwf'
+  simp only [Bool.and_eq_true] at hwf'
+  have := by_name_exact d imgF imgS hwf (assemble_dynLayout hwf'.1.1.1 hF) (assemble_dynLayout hwf'.1.1.2 hS) hsF hsS hok q
+  exact ⟨this.1, this.2.1⟩
+
+/-! ### `num_symbols()` without a usable hash table -/
+
+/-- MODEL EXACTLY.  Neither hash tag leads anywhere (absent, or its pointer outside every PT_LOAD);
+    DT_SYMTAB live and mapped; every live entry can be shown (`iter_tags()` builds a `DynamicTag`
+    for each).  Then `num_symbols()` is ELFError when some live DT_SYMENT is not the record size,
+    else the number of whole records between the table's address and `fallbackEnd` — the least
+    value of ANY live entry above that address, else the end of the last program header (of any
+    type) whose extent, end included, holds it — and TypeError (`None - int`) when there is no such
+    end. -/
+theorem num_symbols_fallback (c : ElfCfg) (data : Bytes) (ifc : FileIfc) (d : Dyn) (tags : List (Int × Nat))
+    (hs : List Val) (V : View c data d tags) (hterm : hasTerminator tags = true) (SV : SegsView ifc hs)
+    (iterSegs : R (List (String × Val))) (gs : List (String × Val)) (hsegs : iterSegs = .ok gs)
+    (hgs : gs.map (·.2) = hs)
+    (hnog : (firstVal (liveTags tags) DT_GNU_HASH).bind (mapAddr hs) = none)
+    (hnoh : (firstVal (liveTags tags) DT_HASH).bind (mapAddr hs) = none)
+    (a o : Nat) (ha : firstVal (liveTags tags) DT_SYMTAB = some a) (ho : mapAddr hs a = some o)
+    (tab : StrTab) (strtab : Bytes) (hst : getStringtable elfEnv (S c) data ifc d = .ok (some tab))
+    (hserve : Serves data tab strtab) (hstr : StringsOk (sunw c) strtab (liveTags tags)) :
+    numSymbols elfEnv (S c) data ifc d iterSegs c.le
+      = if symentOk (symSz c) (liveTags tags) then
+          (match fallbackEnd hs (liveTags tags) a with
+           | some e => .ok ((e - a) / symSz c)
+           | none => .error .typeError)
+        else .error .elfError := by
+  have F := tag_facts c
+  rw [numSymbols_nohash V F.null hterm SV F.gnuHash F.hash (symSz_spec c).1 hnog hnoh]
+  exact numSymbolsFallback_view V F.null hterm SV F.symtab (syment_fact c) hst F.attr hserve hstr hsegs hgs ha ho _
+    (symSz_spec c).2
+
+/-- THE PRECISE CONDITION.  Under the hypotheses of `num_symbols_fallback` and a consistent
+    DT_SYMENT, the count recovered is `n` exactly when the assumed end lies in
+    `[a + n·size, a + (n+1)·size)` (`FallbackExact`): the nearest entry value above the table's
+    address (or the covering segment's end) is less than one record past the table's true end. -/
+theorem num_symbols_fallback_exact_iff (c : ElfCfg) (data : Bytes) (ifc : FileIfc) (d : Dyn) (tags : List (Int × Nat))
+    (hs : List Val) (V : View c data d tags) (hterm : hasTerminator tags = true) (SV : SegsView ifc hs)
+    (iterSegs : R (List (String × Val))) (gs : List (String × Val)) (hsegs : iterSegs = .ok gs)
+    (hgs : gs.map (·.2) = hs)
+    (hnog : (firstVal (liveTags tags) DT_GNU_HASH).bind (mapAddr hs) = none)
+    (hnoh : (firstVal (liveTags tags) DT_HASH).bind (mapAddr hs) = none)
+    (a o : Nat) (ha : firstVal (liveTags tags) DT_SYMTAB = some a) (ho : mapAddr hs a = some o)
+    (tab : StrTab) (strtab : Bytes) (hst : getStringtable elfEnv (S c) data ifc d = .ok (some tab))
+    (hserve : Serves data tab strtab) (hstr : StringsOk (sunw c) strtab (liveTags tags))
+    (hse : symentOk (symSz c) (liveTags tags) = true) (n : Nat) :
+    numSymbols elfEnv (S c) data ifc d iterSegs c.le = .ok n ↔ FallbackExact (symSz c) hs (liveTags tags) n := by
+  rw [num_symbols_fallback c data ifc d tags hs V hterm SV iterSegs gs hsegs hgs hnog hnoh a o ha ho tab strtab hst
+    hserve hstr]
+  simp only [hse, if_true]
+  rw [← fallbackCount_eq_iff (symSz_spec c).2 hs (liveTags tags) n (fun a' e h1 h2 => fallbackEnd_ge h2)]
+  unfold fallbackCount
+  simp only [ha, Option.bind_some]
+  cases fallbackEnd hs (liveTags tags) a with
+  | none => simp
+  | some e => simp
+
+/-- a DT_SYMENT that is not the record size: ELFError — but only on this path; with a usable hash
+    table DT_SYMENT is not looked at (`num_symbols_exact` has no such hypothesis) -/
+theorem num_symbols_syment_mismatch (c : ElfCfg) (data : Bytes) (ifc : FileIfc) (d : Dyn) (tags : List (Int × Nat))
+    (hs : List Val) (V : View c data d tags) (hterm : hasTerminator tags = true) (SV : SegsView ifc hs)
+    (iterSegs : R (List (String × Val))) (gs : List (String × Val)) (hsegs : iterSegs = .ok gs)
+    (hgs : gs.map (·.2) = hs)
+    (hnog : (firstVal (liveTags tags) DT_GNU_HASH).bind (mapAddr hs) = none)
+    (hnoh : (firstVal (liveTags tags) DT_HASH).bind (mapAddr hs) = none)
+    (a o : Nat) (ha : firstVal (liveTags tags) DT_SYMTAB = some a) (ho : mapAddr hs a = some o)
+    (tab : StrTab) (strtab : Bytes) (hst : getStringtable elfEnv (S c) data ifc d = .ok (some tab))
+    (hserve : Serves data tab strtab) (hstr : StringsOk (sunw c) strtab (liveTags tags))
+    (t : Int × Nat) (ht : t ∈ liveTags tags) (h1 : t.1 = DT_SYMENT) (h2 : t.2 ≠ symSz c) :
+    numSymbols elfEnv (S c) data ifc d iterSegs c.le = .error .elfError := by
+  rw [num_symbols_fallback c data ifc d tags hs V hterm SV iterSegs gs hsegs hgs hnog hnoh a o ha ho tab strtab hst
+    hserve hstr]
+  have : symentOk (symSz c) (liveTags tags) = false := by
+    apply Bool.eq_false_iff.2
+    intro h
+    have := List.all_eq_true.1 h t ht
+    simp [h1, h2] at this
+  simp [this]
+
+/-- DT_SYMTAB absent or outside every PT_LOAD: `get_symbol(i)` raises ELFError for every `i`, and so
+    does `num_symbols()` when it has to take the fallback -/
+theorem symbol_table_unmapped (c : ElfCfg) (data : Bytes) (ifc : FileIfc) (d : Dyn) (tags : List (Int × Nat))
+    (hs : List Val) (V : View c data d tags) (hterm : hasTerminator tags = true) (SV : SegsView ifc hs)
+    (iterSegs : R (List (String × Val)))
+    (hno : (firstVal (liveTags tags) DT_SYMTAB).bind (mapAddr hs) = none) :
+    (∀ i, getSymbol elfEnv (S c) data ifc d i = .error .elfError) ∧
+    ((firstVal (liveTags tags) DT_GNU_HASH).bind (mapAddr hs) = none →
+     (firstVal (liveTags tags) DT_HASH).bind (mapAddr hs) = none →
+      numSymbols elfEnv (S c) data ifc d iterSegs c.le = .error .elfError ∧
+      iterSymbols elfEnv (S c) data ifc d iterSegs c.le = .error .elfError ∧
+      ∀ q, getSymbolByName elfEnv (S c) data ifc d iterSegs c.le q = .error .elfError) := by
+  have F := tag_facts c
+  refine ⟨fun i => getSymbol_unmapped V F.null hterm SV F.symtab hno i, fun hnog hnoh => ?_⟩
+  have hn : numSymbols elfEnv (S c) data ifc d iterSegs c.le = .error .elfError := by
+    rw [numSymbols_nohash V F.null hterm SV F.gnuHash F.hash (symSz_spec c).1 hnog hnoh]
+    exact numSymbolsFallback_nosymtab V F.null hterm SV F.symtab hno _
+  have hi : iterSymbols elfEnv (S c) data ifc d iterSegs c.le = .error .elfError := by
+    unfold iterSymbols; simp [hn, bind, Except.bind]
+  exact ⟨hn, hi, fun q => getSymbolByName_error hi q⟩
+
+
+/-! ### the fallback, whole file -/
+
+/-- what a reader without a usable hash table must be expected to report as the count
+    (Spec/DynamicExt.lean) -/
+def specFallbackCount (d : DynDesc) : R Nat :=
+  if symentOk d.symsz d.live then
+    (match d.fallbackCount elfEnv with
+     | some n => .ok n
+     | none => .error .typeError)
+  else .error .elfError
+
+/-- the count the `DynamicSegment` of a layout recovers when no hash table is reachable -/
+theorem seg_count_fallback (d : DynDesc) (full : Bool) (bytes : Bytes) (f : ElfFile) (dy : Dyn)
+    (X : SegBase elfEnv d full bytes f dy) (ht : d.wfTags elfEnv full = true) (hs : d.wfSyms elfEnv = true)
+    (hno : d.noHash elfEnv = true) :
+    numSymbols elfEnv d.S f.data (realIfc elfEnv f) dy (iterSegments elfEnv d.S f.data f.header f.shstr) d.le
+      = specFallbackCount d := by
+  have F := tag_facts d.cfg
+  simp only [DynDesc.wfTags, Bool.and_eq_true] at ht
+  obtain ⟨⟨hterm, hstrs⟩, hok⟩ := ht
+  obtain ⟨tab, hst, hserve⟩ := strtab_of_route X F.null F.strtab hterm hok
+  have V : View d.cfg f.data dy d.tags := by have := X.view; rwa [X.S] at this
+  obtain ⟨a, ha, ho⟩ := ptrOk_some hs
+  obtain ⟨gs, hsegs, hgs⟩ := X.iterSegs
+  rw [X.S] at hst hsegs
+  simp only [DynDesc.noHash, Bool.and_eq_true, Option.isNone_iff_eq_none] at hno
+  have := num_symbols_fallback d.cfg f.data (realIfc elfEnv f) dy d.tags (d.phdrs elfEnv) V hterm X.segs
+    (iterSegments elfEnv d.S f.data f.header f.shstr) gs hsegs hgs hno.1 hno.2 a d.symOff ha ho tab d.strtab hst hserve
+    (stringsOk_tags hstrs)
+  rw [show numSymbols elfEnv d.S f.data (realIfc elfEnv f) dy (iterSegments elfEnv d.S f.data f.header f.shstr) d.le = _
+    from this]
+  unfold specFallbackCount DynDesc.fallbackCount fallbackCount
+  have ha' : firstVal d.live DT_SYMTAB = some a := ha
+  simp only [ha', Option.bind_some]
+  have e1 : symSz d.cfg = d.symsz := rfl
+  have e2 : liveTags d.tags = d.live := rfl
+  rw [e1, e2]
+  cases fallbackEnd (d.phdrs elfEnv) d.live a <;> rfl
+
+/-- the count of one layout through its `DynamicSegment`, no hash table reachable: the estimate of
+    Spec/DynamicExt.lean (`specFallbackCount`), whether or not it is the true count -/
+theorem seg_num_symbols_fallback (d : DynDesc) (full : Bool) (bytes : Bytes)
+    (hc : (d.container full).wf elfEnv = true) (hb : d.wfBase elfEnv = true) (ht : d.wfTags elfEnv full = true)
+    (hs : d.wfSyms elfEnv = true) (hno : d.noHash elfEnv = true)
+    (hl : DynLayout d full bytes) (hsmall : bytes.length < 2 ^ 63) :
+    ∃ so, symObs bytes = .ok (some so) ∧ so.numSymbols = specFallbackCount d := by
+  obtain ⟨f, dy, X⟩ := segBase_of sh_types hc hb hl hsmall
+  have := seg_count_fallback d full bytes f dy X ht hs hno
+  refine ⟨⟨iterSymbols elfEnv d.S f.data (realIfc elfEnv f) dy (iterSegments elfEnv d.S f.data f.header f.shstr) d.le,
+    numSymbols elfEnv d.S f.data (realIfc elfEnv f) dy (iterSegments elfEnv d.S f.data f.header f.shstr) d.le⟩, ?_, this⟩
+  unfold symObs
+  simp only [X.opened, X.seg, bind, Except.bind, pure, Except.pure, X.S, X.le]
+
+/-- EXACTNESS UNDER THE ASSEMBLER'S LAYOUT.  No hash table reachable, DT_SYMENT consistent, and the
+    estimate is the true count (`fallbackExact`: by `num_symbols_fallback_exact_iff`, the nearest
+    entry value above the symbol table's address — or the covering segment's end — is less than one
+    record past the table's end): the symbols, their count and every lookup by name are the
+    described ones, from either layout. -/
+theorem seg_symbols_exact_fallback (d : DynDesc) (full : Bool) (bytes : Bytes)
+    (hc : (d.container full).wf elfEnv = true) (hb : d.wfBase elfEnv = true) (ht : d.wfTags elfEnv full = true)
+    (hs : d.wfSyms elfEnv = true) (hno : d.noHash elfEnv = true)
+    (hse : symentOk d.symsz d.live = true) (hex : d.fallbackExact elfEnv = true)
+    (hl : DynLayout d full bytes) (hsmall : bytes.length < 2 ^ 63) :
+    symObs bytes = .ok (some (specSymObs d)) ∧ (∃ ss, obsSyms elfEnv d = .ok ss ∧ ss.length = d.syms.length) ∧
+    ∀ q, byNameObs bytes q = .ok (some (obsByName elfEnv d q)) := by
+  obtain ⟨f, dy, X⟩ := segBase_of sh_types hc hb hl hsmall
+  have hn := seg_count_fallback d full bytes f dy X ht hs hno
+  have hex' : d.fallbackCount elfEnv = some d.syms.length := by
+    simpa [DynDesc.fallbackExact] using hex
+  have : specFallbackCount d = .ok d.syms.length := by
+    simp [specFallbackCount, hse, hex']
+  rw [this] at hn
+  exact seg_symbols_core d full bytes f dy X ht hs hn
+
+/-- … and when the estimate is NOT the true count the count reported is the estimate, i.e. wrong:
+    the fallback is exact only under `fallbackExact` -/
+theorem seg_num_symbols_fallback_inexact (d : DynDesc) (full : Bool) (bytes : Bytes)
+    (hc : (d.container full).wf elfEnv = true) (hb : d.wfBase elfEnv = true) (ht : d.wfTags elfEnv full = true)
+    (hs : d.wfSyms elfEnv = true) (hno : d.noHash elfEnv = true)
+    (hse : symentOk d.symsz d.live = true) (hex : d.fallbackExact elfEnv = false)
+    (hl : DynLayout d full bytes) (hsmall : bytes.length < 2 ^ 63) :
+    ∃ so, symObs bytes = .ok (some so) ∧ so.numSymbols ≠ .ok d.syms.length := by
+  obtain ⟨so, h1, h2⟩ := seg_num_symbols_fallback d full bytes hc hb ht hs hno hl hsmall
+  refine ⟨so, h1, ?_⟩
+  rw [h2]
+  unfold specFallbackCount
+  simp only [hse, if_true]
+  have hne : d.fallbackCount elfEnv ≠ some d.syms.length := by
+    intro h; simp [DynDesc.fallbackExact, h] at hex
+  cases hf : d.fallbackCount elfEnv with
+  | none => simp
+  | some n =>
+    intro h
+    cases h
+    exact hne hf
+
+/-! ### incomplete dynamic information: exception classes and stopping points -/
+
+/-- no string table by any route (object constructed without one, DT_STRTAB absent or outside every
+    PT_LOAD, no section called `.dynstr`): `_get_stringtable()` is `None` -/
+theorem stringtable_none (c : ElfCfg) (data : Bytes) (ifc : FileIfc) (d : Dyn) (tags : List (Int × Nat))
+    (hs : List Val) (V : View c data d tags) (hterm : hasTerminator tags = true) (SV : SegsView ifc hs)
+    (hnone : d.strtab = none) (hno : (firstVal (liveTags tags) DT_STRTAB).bind (mapAddr hs) = none)
+    (hby : ifc.sectionByName (nm ".dynstr") = .ok none) :
+    getStringtable elfEnv (S c) data ifc d = .ok none := by
+  have := stringtable_by_name c data ifc d tags hs V hterm SV hnone hno none hby
+  simpa using this
+
+/-- … and then no entry can be shown: `iter_tags()`, `num_tags()` and `get_tag(n)` raise ELFError at
+    the first entry (`DynamicTag.__init__`); `get_table_offset` is unaffected (`table_offset_exact`
+    has no string-table hypothesis) -/
+theorem tags_without_stringtable (c : ElfCfg) (data : Bytes) (ifc : FileIfc) (d : Dyn) (tags : List (Int × Nat))
+    (V : View c data d tags) (hterm : hasTerminator tags = true)
+    (hst : getStringtable elfEnv (S c) data ifc d = .ok none) :
+    iterTags elfEnv (S c) data ifc d none = .error .elfError ∧ numTags elfEnv (S c) data ifc d = .error .elfError ∧
+    ∀ n, n < tags.length → getTag elfEnv (S c) data ifc d n = .error .elfError :=
+  tags_no_strtab V (tags_pos_of_term hterm) hst
+
+/-- … while `get_symbol(i)` reads the record and fails on `None.get_string`: AttributeError -/
+theorem symbols_without_stringtable (c : ElfCfg) (data : Bytes) (ifc : FileIfc) (d : Dyn) (tags : List (Int × Nat))
+    (hs : List Val) (V : View c data d tags) (hterm : hasTerminator tags = true) (SV : SegsView ifc hs)
+    (a symOff : Nat) (ha : firstVal (liveTags tags) DT_SYMTAB = some a) (ho : mapAddr hs a = some symOff)
+    (syms : List Fields) (sb rest : Bytes)
+    (henc : encAll (S c).Elf_Sym (syms.map .record) = some sb) (hpl : data.drop symOff = sb ++ rest)
+    (hst : getStringtable elfEnv (S c) data ifc d = .ok none) (i : Nat) (hi : i < syms.length) :
+    getSymbol elfEnv (S c) data ifc d i = .error .attributeError := by
+  obtain ⟨es, Y⟩ := symView_of elfEnv c data symOff syms sb rest henc hpl
+  exact getSymbol_no_strtab V (tag_facts c).null hterm SV (tag_facts c).symtab ha ho Y hst i hi
+
+/-- the tags of the image without section headers whose DT_STRTAB is absent or outside every
+    PT_LOAD: ELFError from both enumerations -/
+theorem seg_tags_no_strtab (d : DynDesc) (bytes : Bytes)
+    (hc : (d.container false).wf elfEnv = true) (hb : d.wfBase elfEnv = true)
+    (hterm : hasTerminator d.tags = true) (hr : d.strRoute elfEnv false = .none)
+    (hl : DynLayout d false bytes) (hsmall : bytes.length < 2 ^ 63) :
+    segObs bytes = .ok (some ⟨.error .elfError, .error .elfError⟩) := by
+  have F := tag_facts d.cfg
+  obtain ⟨f, dy, X⟩ := segBase_of sh_types hc hb hl hsmall
+  have hst := strtab_none X F.null F.strtab hterm hr
+  have V : View d.cfg f.data dy d.tags := by have := X.view; rwa [X.S] at this
+  rw [X.S] at hst
+  have e := tags_without_stringtable d.cfg f.data (realIfc elfEnv f) dy d.tags V hterm hst
+  unfold segObs
+  simp only [X.opened, X.seg, bind, Except.bind, pure, Except.pure, tagObs, X.S]
+  have e1 : iterTags elfEnv d.S f.data (realIfc elfEnv f) dy none = _ := e.1
+  have e2 : numTags elfEnv d.S f.data (realIfc elfEnv f) dy = _ := e.2.1
+  rw [e1, e2]
+
+/-- a dynamic table that runs off the end of the file without DT_NULL (at most a partial entry
+    follows the stored ones): every stored entry is still produced by `get_tag(n)`, each with its
+    string; the entry after the last raises ELFParseError, and so do `list(iter_tags())` and
+    `num_tags()` -/
+theorem tags_truncated (c : ElfCfg) (data : Bytes) (ifc : FileIfc) (d : Dyn) (tags : List (Int × Nat))
+    (strtab : Bytes) (tab : StrTab)
+    (V : View c data d tags) (hnt : hasTerminator tags = false)
+    (hend : data.length < d.offset + tags.length * (2 * (c.cls / 8)) + 2 * (c.cls / 8))
+    (hst : getStringtable elfEnv (S c) data ifc d = .ok (some tab)) (hserve : Serves data tab strtab)
+    (hstr : StringsOk (sunw c) strtab tags) :
+    iterTags elfEnv (S c) data ifc d none = .error .elfParseError ∧
+    numTags elfEnv (S c) data ifc d = .error .elfParseError ∧
+    (∀ n (hn : n < tags.length),
+      getTag elfEnv (S c) data ifc d n = .ok (obsEntry elfEnv (tbl c) (sunw c) strtab tags[n])) ∧
+    getTag elfEnv (S c) data ifc d tags.length = .error .elfParseError :=
+  tags_trunc ⟨V, hnt, hend⟩ (tag_facts c).null hst (tag_facts c).attr hserve hstr
+
+/-- the tags of a layout whose table runs off the end of the image, string table by the section
+    link or a stored DT_STRTAB: ELFParseError from both enumerations -/
+theorem seg_tags_truncated (d : DynDesc) (full : Bool) (bytes : Bytes)
+    (hc : (d.container full).wf elfEnv = true) (hb : d.wfBase elfEnv = true)
+    (hnt : hasTerminator d.tags = false) (hstrs : stringsOk d = true)
+    (hok : d.strOk elfEnv full = true) (hr : d.strRoute elfEnv full ≠ .byName)
+    (hl : DynLayout d full bytes) (hsmall : bytes.length < 2 ^ 63)
+    (hend : bytes.length < d.dynOff + d.tags.length * (2 * d.w) + 2 * d.w) :
+    segObs bytes = .ok (some ⟨.error .elfParseError, .error .elfParseError⟩) := by
+  have F := tag_facts d.cfg
+  obtain ⟨f, dy, X⟩ := segBase_of sh_types hc hb hl hsmall
+  have T := truncView_of X hnt X.offset hend
+  obtain ⟨tab, hst, hserve⟩ := strtab_of_route_trunc X T F.null F.strtab hok hr
+  have V : View d.cfg f.data dy d.tags := by have := X.view; rwa [X.S] at this
+  rw [X.S] at hst
+  have hstr : StringsOk (sunw d.cfg) d.strtab d.tags := by
+    have := stringsOk_tags hstrs
+    rwa [live_noTerm hnt] at this
+  have hend' : f.data.length < dy.offset + d.tags.length * (2 * (d.cfg.cls / 8)) + 2 * (d.cfg.cls / 8) := by
+    rw [X.data, X.offset]; exact hend
+  have e := tags_truncated d.cfg f.data (realIfc elfEnv f) dy d.tags d.strtab tab V hnt hend' hst hserve hstr
+  unfold segObs
+  simp only [X.opened, X.seg, bind, Except.bind, pure, Except.pure, tagObs, X.S]
+  have e1 : iterTags elfEnv d.S f.data (realIfc elfEnv f) dy none = _ := e.1
+  have e2 : numTags elfEnv d.S f.data (realIfc elfEnv f) dy = _ := e.2.1
+  rw [e1, e2]
+
+
+/-- DT_SYMTAB absent or outside every PT_LOAD and no hash table reachable, whole file: the count,
+    the enumeration and every lookup by name raise ELFError (no string table is needed to say so) -/
+theorem seg_symbols_unmapped (d : DynDesc) (full : Bool) (bytes : Bytes)
+    (hc : (d.container full).wf elfEnv = true) (hb : d.wfBase elfEnv = true)
+    (hterm : hasTerminator d.tags = true) (hno : d.noHash elfEnv = true)
+    (hun : ((firstVal d.live DT_SYMTAB).bind (mapAddr (d.phdrs elfEnv))).isNone = true)
+    (hl : DynLayout d full bytes) (hsmall : bytes.length < 2 ^ 63) :
+    symObs bytes = .ok (some ⟨.error .elfError, .error .elfError⟩) ∧
+    ∀ q, byNameObs bytes q = .ok (some (.error .elfError)) := by
+  obtain ⟨f, dy, X⟩ := segBase_of sh_types hc hb hl hsmall
+  have V : View d.cfg f.data dy d.tags := by have := X.view; rwa [X.S] at this
+  simp only [DynDesc.noHash, Bool.and_eq_true, Option.isNone_iff_eq_none] at hno
+  simp only [Option.isNone_iff_eq_none] at hun
+  obtain ⟨h1, h2, h3⟩ := (symbol_table_unmapped d.cfg f.data (realIfc elfEnv f) dy d.tags (d.phdrs elfEnv) V hterm X.segs
+    (iterSegments elfEnv d.S f.data f.header f.shstr) hun).2 hno.1 hno.2
+  have e1 : numSymbols elfEnv d.S f.data (realIfc elfEnv f) dy (iterSegments elfEnv d.S f.data f.header f.shstr) d.le
+      = .error .elfError := h1
+  have e2 : iterSymbols elfEnv d.S f.data (realIfc elfEnv f) dy (iterSegments elfEnv d.S f.data f.header f.shstr) d.le
+      = .error .elfError := h2
+  refine ⟨?_, fun q => ?_⟩
+  · unfold symObs
+    simp only [X.opened, X.seg, bind, Except.bind, pure, Except.pure, X.S, X.le]
+    rw [e1, e2]
+  · have e3 : getSymbolByName elfEnv d.S f.data (realIfc elfEnv f) dy
+        (iterSegments elfEnv d.S f.data f.header f.shstr) d.le q = .error .elfError := h3 q
+    unfold byNameObs
+    simp only [X.opened, X.seg, bind, Except.bind, pure, Except.pure, X.S, X.le]
+    rw [e3]
+
+/-- the whole-file theorems above speak of any byte string carrying a layout; the assembler's output
+    is one whenever the regions do not overlap (descriptions outside `DynDesc.wf` included) -/
+theorem assembled_is_layout (d : DynDesc) (full : Bool) (bytes : Bytes) (hok : d.regionsOk full = true)
+    (h : d.assemble full = some bytes) : DynLayout d full bytes :=
+  assemble_dynLayout_of_regionsOk hok h
+
+/-! ### the fallback on concrete images: an exact case, and THE COUNTEREXAMPLE
+
+  A 64-bit LSB image: the dynamic table at offset 0 (5 entries), one PT_LOAD mapping addresses
+  0x200–0x23f to offsets 0x50–0x8f, two symbol records at address 0x200 (offset 0x50), the string
+  table directly behind them at address 0x230.  No hash table.
+  * `exFbTagsOk`: DT_STRSZ = 5 — the nearest value above 0x200 is DT_STRTAB = 0x230 = the true end:
+    two symbols are counted.
+  * `exFbTagsBad`: the same with DT_STRSZ = 0x210 (a 528-byte string table — an ordinary size).
+    DT_STRSZ is not a pointer, but the fallback compares `d_ptr` of every entry: 0x210 is the
+    nearest value above 0x200, and (0x210 − 0x200) div 24 = 0 symbols are counted. -/
+
+def exFbTagsOk : List (Int × Nat) := [(DT_SYMTAB, 0x200), (DT_STRTAB, 0x230), (10, 5), (DT_SYMENT, 24), (DT_NULL, 0)]
+def exFbTagsBad : List (Int × Nat) := [(DT_SYMTAB, 0x200), (DT_STRTAB, 0x230), (10, 0x210), (DT_SYMENT, 24), (DT_NULL, 0)]
+def w8' (a b : Nat) : Bytes := [UInt8.ofNat a, UInt8.ofNat b, 0, 0, 0, 0, 0, 0]
+def exFbTable (strsz : Bytes) : Bytes :=
+  w8 6 ++ w8' 0 2 ++ w8 5 ++ w8' 0x30 2 ++ w8 10 ++ strsz ++ w8 11 ++ w8 24 ++ w8 0 ++ w8 0
+def exFbStr : Bytes := [0, 0x61, 0, 0x62, 0x63, 0, 0x66, 0]
+def exFbData (strsz : Bytes) : Bytes := exFbTable strsz ++ exSymBytes ++ exFbStr
+def exFbPhdr : Val :=
+  .record [("p_type", .str "PT_LOAD"), ("p_offset", .int 0x50), ("p_vaddr", .int 0x200), ("p_filesz", .int 0x40)]
+def exFbIfc : FileIfc := ⟨.ok 1, fun _ => .ok ("Segment", exFbPhdr), fun _ => .ok none⟩
+def exFbDyn : Dyn := ⟨some (.dynamic 0x80), 0, false, 16⟩
+def exFbSegs : R (List (String × Val)) := .ok [("Segment", exFbPhdr)]
+
+theorem exFbOk_enc : encAll (dynCon true 8 (tbl exCfg)) (exFbTagsOk.map rawTag) = some (exFbTable (w8 5)) := by
+  simp [encAll, exFbTagsOk, rawTag, dynCon, st, mkFields, f, enumOf, Con.encodeRaw, ConFields.encodeRaw, Fields.get?,
+    DT_SYMTAB, DT_STRTAB, DT_SYMENT, DT_NULL, bind, Option.bind, pure]
+  decide
+
+theorem exFbBad_enc : encAll (dynCon true 8 (tbl exCfg)) (exFbTagsBad.map rawTag) = some (exFbTable (w8' 0x10 2)) := by
+  simp [encAll, exFbTagsBad, rawTag, dynCon, st, mkFields, f, enumOf, Con.encodeRaw, ConFields.encodeRaw, Fields.get?,
+    DT_SYMTAB, DT_STRTAB, DT_SYMENT, DT_NULL, bind, Option.bind, pure]
+  decide
+
+theorem exFb_segs : SegsView exFbIfc [exFbPhdr] where
+  num := rfl
+  get := fun i hi => ⟨"Segment", by
+    have : i = 0 := by simpa using hi
+    subst this; rfl⟩
+  ok := fun h hh => by
+    have : h = exFbPhdr := by simpa using hh
+    subst this
+    exact ⟨.str "PT_LOAD", 0x200, 0x40, 0x50, rfl, rfl, rfl, rfl⟩
+
+theorem exFbOk_view : View exCfg (exFbData (w8 5)) exFbDyn exFbTagsOk where
+  con := rfl
+  wpos := by decide
+  nonempty := rfl
+  tagsize := rfl
+  placed := ⟨exFbTable (w8 5), exSymBytes ++ exFbStr, exFbOk_enc, by simp [exFbData, exFbDyn]⟩
+  small := by simp [exFbData, exFbTable, w8, w8', exSymBytes, exFbStr]
+
+theorem exFbBad_view : View exCfg (exFbData (w8' 0x10 2)) exFbDyn exFbTagsBad where
+  con := rfl
+  wpos := by decide
+  nonempty := rfl
+  tagsize := rfl
+  placed := ⟨exFbTable (w8' 0x10 2), exSymBytes ++ exFbStr, exFbBad_enc, by simp [exFbData, exFbDyn]⟩
+  small := by simp [exFbData, exFbTable, w8, w8', exSymBytes, exFbStr]
+
+theorem symSz_ex : symSz exCfg = 24 := by
+  simp [symSz, S, exCfg, elfStructs, st, mkFields, f, enumOf, Con.sizeof, ConFields.sizeof, bind, Option.bind]
+
+theorem exFb_serves (data : Bytes) : Serves data (.dynamic 0x80) [] := by
+  intro v s h
+  simp [strAt, firstNul] at h
+
+/-- non-vacuity of `num_symbols_fallback` / `…_exact_iff`: a concrete image on which the fallback
+    counts the two stored symbols -/
+theorem num_symbols_fallback_example :
+    numSymbols elfEnv (S exCfg) (exFbData (w8 5)) exFbIfc exFbDyn exFbSegs true = .ok 2 ∧
+    FallbackExact (symSz exCfg) [exFbPhdr] (liveTags exFbTagsOk) 2 := by
+  have h := num_symbols_fallback exCfg (exFbData (w8 5)) exFbIfc exFbDyn exFbTagsOk [exFbPhdr] exFbOk_view (by decide)
+    exFb_segs exFbSegs [("Segment", exFbPhdr)] rfl rfl (by decide) (by decide) 0x200 0x50 (by decide) (by decide)
+    (.dynamic 0x80) [] (stringtable_by_link exCfg _ _ exFbDyn _ rfl) (exFb_serves _)
+    (fun t ht => Or.inl (by revert t ht; decide))
+  rw [symSz_ex] at h
+  have h2 : numSymbols elfEnv (S exCfg) (exFbData (w8 5)) exFbIfc exFbDyn exFbSegs true = .ok 2 := by
+    rw [show (true : Bool) = exCfg.le from rfl, h]; rfl
+  refine ⟨h2, ?_⟩
+  rw [symSz_ex]
+  exact ⟨0x200, 0x230, by decide, by decide, by decide, by decide⟩
+
+/-- THE COUNTEREXAMPLE.  The symbol table DT_SYMTAB designates holds two records (`SymView`) and the
+    string table follows it directly, yet `num_symbols()` is 0: the fallback takes the value of
+    DT_STRSZ (0x210, between DT_SYMTAB = 0x200 and DT_STRTAB = 0x230) for the nearest following
+    pointer.  `iter_symbols()` then yields nothing and `get_symbol_by_name` finds nothing.  So
+    without a hash table the count is exact only under `FallbackExact`. -/
+theorem num_symbols_fallback_counterexample :
+    (∃ es, SymView elfEnv (S exCfg) (exFbData (w8' 0x10 2)) 0x50 [exSym 0, exSym 6] es) ∧
+    getTableOffset elfEnv (S exCfg) (exFbData (w8' 0x10 2)) exFbIfc exFbDyn "DT_SYMTAB" = .ok (some 0x200, some 0x50) ∧
+    numSymbols elfEnv (S exCfg) (exFbData (w8' 0x10 2)) exFbIfc exFbDyn exFbSegs true = .ok 0 ∧
+    iterSymbols elfEnv (S exCfg) (exFbData (w8' 0x10 2)) exFbIfc exFbDyn exFbSegs true = .ok [] ∧
+    ¬ FallbackExact (symSz exCfg) [exFbPhdr] (liveTags exFbTagsBad) 2 := by
+  have h := num_symbols_fallback exCfg (exFbData (w8' 0x10 2)) exFbIfc exFbDyn exFbTagsBad [exFbPhdr] exFbBad_view
+    (by decide) exFb_segs exFbSegs [("Segment", exFbPhdr)] rfl rfl (by decide) (by decide) 0x200 0x50 (by decide)
+    (by decide) (.dynamic 0x80) [] (stringtable_by_link exCfg _ _ exFbDyn _ rfl) (exFb_serves _)
+    (fun t ht => Or.inl (by revert t ht; decide))
+  rw [symSz_ex] at h
+  have h2 : numSymbols elfEnv (S exCfg) (exFbData (w8' 0x10 2)) exFbIfc exFbDyn exFbSegs true = .ok 0 := by
+    rw [show (true : Bool) = exCfg.le from rfl, h]; rfl
+  refine ⟨symView_of elfEnv exCfg _ 0x50 _ exSymBytes exFbStr exSym_enc (by decide), ?_, h2, ?_, ?_⟩
+  · have := table_offset_exact exCfg _ exFbIfc exFbDyn exFbTagsBad [exFbPhdr] exFbBad_view (by decide) exFb_segs
+      ("DT_SYMTAB", DT_SYMTAB) (by simp)
+    rw [this]; rfl
+  · unfold iterSymbols
+    rw [h2]; rfl
+  · rw [symSz_ex]
+    intro ⟨a, e, ha, he, h1, h2⟩
+    have ha' : a = 0x200 := by
+      have : firstVal (liveTags exFbTagsBad) DT_SYMTAB = some 0x200 := by decide
+      rw [this] at ha; exact (Option.some.inj ha).symm
+    subst ha'
+    have he' : e = 0x210 := by
+      have : fallbackEnd [exFbPhdr] (liveTags exFbTagsBad) 0x200 = some 0x210 := by decide
+      rw [this] at he; exact (Option.some.inj he).symm
+    subst he'
+    omega
+
+
+/-! ### non-vacuity of the remaining hypotheses -/
+
+/-- lookups over a concrete enumeration: duplicates in index order, absent name -/
+example : byNameOf [([0x66], .int 1), ([0x67], .int 2), ([0x66], .int 3)] [0x66]
+    = some [([0x66], .int 1), ([0x66], .int 3)] := rfl
+example : byNameOf [([0x66], .int 1), ([0x67], .int 2), ([0x66], .int 3)] [0x68] = none := rfl
+example : minAbove [5, 0x230, 0x210, 24, 0] 0x200 = some 0x210 ∧ minAbove [5, 24, 0] 0x200 = none := by decide
+example : segEnd [exFbPhdr] 0x200 = some 0x240 ∧ segEnd [exFbPhdr] 0x240 = some 0x240 ∧ segEnd [exFbPhdr] 0x241 = none := by
+  decide
+
+theorem exView : View exCfg exData ⟨none, 3, false, 16⟩ exTags where
+  con := rfl
+  wpos := by decide
+  nonempty := rfl
+  tagsize := rfl
+  placed := ⟨exTable, [4, 5], exTable_enc, by decide⟩
+  small := by decide
+
+/-- a file object without program headers and without sections -/
+def exIfc0 : FileIfc := ⟨.ok 0, fun _ => .error .indexError, fun _ => .ok none⟩
+theorem exSegs0 : SegsView exIfc0 [] where
+  num := rfl
+  get := fun i hi => by simp at hi
+  ok := fun h hh => by simp at hh
+
+/-- `stringtable_none` / `tags_without_stringtable` on a concrete object: DT_STRTAB = 0x1000 maps
+    nowhere (no PT_LOAD), no `.dynstr` section -/
+example : getStringtable elfEnv (S exCfg) exData exIfc0 ⟨none, 3, false, 16⟩ = .ok none ∧
+    iterTags elfEnv (S exCfg) exData exIfc0 ⟨none, 3, false, 16⟩ none = .error .elfError := by
+  have h := stringtable_none exCfg exData exIfc0 _ exTags [] exView (by decide) exSegs0 rfl (by decide) rfl
+  exact ⟨h, (tags_without_stringtable exCfg exData exIfc0 _ exTags exView (by decide) h).1⟩
+
+/-- `symbol_table_unmapped` on the same object (no DT_SYMTAB at all) -/
+example : getSymbol elfEnv (S exCfg) exData exIfc0 ⟨none, 3, false, 16⟩ 0 = .error .elfError :=
+  (symbol_table_unmapped exCfg exData exIfc0 _ exTags [] exView (by decide) exSegs0 (.ok []) (by decide)).1 0
+
+/-- a table that runs off the end: NEEDED, STRTAB and then the file ends -/
+def exTruncTags : List (Int × Nat) := [(DT_NEEDED, 1), (DT_STRTAB, 0x1000)]
+def exTruncTable : Bytes := w8 1 ++ w8 1 ++ w8 5 ++ [0, 0x10, 0, 0, 0, 0, 0, 0]
+def exTruncData : Bytes := [1, 2, 3] ++ exTruncTable ++ [9]
+
+theorem exTrunc_enc : encAll (dynCon true 8 (tbl exCfg)) (exTruncTags.map rawTag) = some exTruncTable := by
+  simp [encAll, exTruncTags, rawTag, dynCon, st, mkFields, f, enumOf, Con.encodeRaw, ConFields.encodeRaw, Fields.get?,
+    DT_NEEDED, DT_STRTAB, bind, Option.bind, pure]
+  decide
+
+theorem exTrunc_view : View exCfg exTruncData ⟨some (.dynamic 0), 3, false, 16⟩ exTruncTags where
+  con := rfl
+  wpos := by decide
+  nonempty := rfl
+  tagsize := rfl
+  placed := ⟨exTruncTable, [9], exTrunc_enc, by decide⟩
+  small := by decide
+
+/-- `tags_truncated` on a concrete object (string table `[0, 0x61, 0]` assumed served) -/
+example (hserve : Serves exTruncData (.dynamic 0) [0, 0x61, 0]) :
+    iterTags elfEnv (S exCfg) exTruncData exIfc0 ⟨some (.dynamic 0), 3, false, 16⟩ none = .error .elfParseError :=
+  (tags_truncated exCfg exTruncData exIfc0 _ exTruncTags [0, 0x61, 0] (.dynamic 0) exTrunc_view (by decide) (by decide)
+    (stringtable_by_link exCfg _ _ _ _ rfl) hserve (by
+      intro t ht
+      simp only [exTruncTags, List.mem_cons, List.not_mem_nil, or_false] at ht
+      rcases ht with rfl | rfl
+      · exact Or.inr (by decide)
+      · exact Or.inl (by decide))).1
 
 end PyElf.Props.C09
